@@ -76,6 +76,7 @@ var libSigs = map[string]libSig{
 	"strings.HasSuffix": {[]string{"Str", "Str"}, "Bool"},
 	"strings.Contains":  {[]string{"Str", "Str"}, "Bool"},
 	"strings.Index":     {[]string{"Str", "Str"}, "Int"},
+	"strings.IndexAny":  {[]string{"Str", "Str"}, "Int"},
 	"strings.Split":     {[]string{"Str", "Str"}, "L_Str"},
 	"strings.SplitN":    {[]string{"Str", "Str", "Int"}, "L_Str"},
 	"strings.Fields":    {[]string{"Str"}, "L_Str"},
@@ -171,6 +172,9 @@ var libAxioms = map[string]libAx{
 	}},
 	"strings.Index": {nil, []string{
 		"(assert (forall ((s Str) (p Str)) (! (or (= (L_strings_Index s p) (- 1)) (and (<= 0 (L_strings_Index s p)) (<= (+ (L_strings_Index s p) (str_len p)) (str_len s)))) :pattern ((L_strings_Index s p)))))",
+	}},
+	"strings.IndexAny": {nil, []string{
+		"(assert (forall ((s Str) (p Str)) (! (and (<= (- 1) (L_strings_IndexAny s p)) (< (L_strings_IndexAny s p) (ite (= (str_len s) 0) 0 (str_len s)))) :pattern ((L_strings_IndexAny s p)))))",
 	}},
 	"strings.LastIndex": {nil, []string{
 		"(assert (forall ((s Str) (p Str)) (! (or (= (L_strings_LastIndex s p) (- 1)) (and (<= 0 (L_strings_LastIndex s p)) (<= (+ (L_strings_LastIndex s p) (str_len p)) (str_len s)))) :pattern ((L_strings_LastIndex s p)))))",
